@@ -489,7 +489,25 @@ pub fn c10(rng: &mut impl Rng, len: usize) -> Vec<Value> {
     let key = |r: &Value| -> String { r.get("res").and_then(|x| x.as_str()).unwrap_or("").to_string() };
     for _ in 0..len {
         t += 1;
-        let op = rng.gen_range(0..10);
+        let op = rng.gen_range(0..12);
+        // now and then an earlier operation is issued again as it was (a rule set given again after
+        // other operations; an empty per-resource load of a resource loaded before)
+        if op >= 10 {
+            let loads: Vec<Value> = evs.iter().filter(|e| e["e"] == "load").cloned().collect();
+            if !loads.is_empty() {
+                let mut again = pick(rng, &loads).clone();
+                if op == 11 && again["op"] == "res" {
+                    again["rules"] = json!([]);
+                }
+                again["t"] = json!(t);
+                evs.push(again);
+                if fam == "flow" || fam == "iso" {
+                    t += 25_000;
+                    evs.push(json!({"e": "probe", "fam": fam, "res": *pick(rng, &ress), "n": rng.gen_range(0..=5u64), "t": t}));
+                }
+                continue;
+            }
+        }
         let subset = |rng: &mut dyn rand::RngCore, pool: &Vec<Value>, only: Option<&str>| -> Vec<Value> {
             let mut v = Vec::new();
             for r in pool {
@@ -528,6 +546,52 @@ pub fn c10(rng: &mut impl Rng, len: usize) -> Vec<Value> {
     evs
 }
 
+/// One field of a rule gets another value from a small domain (the same domains the generators of the
+/// family draw from), so the rule stays inside the space its specification covers.
+fn change_one_field(rng: &mut impl Rng, r: &mut Value, fam: &str) {
+    let keys: &[&str] = match fam {
+        "flow" => &["thr", "I", "maxq"],
+        "hot" => &["thr", "burst", "dur", "maxq"],
+        "cb" => &["thr", "retry", "minreq", "I"],
+        _ => &["thr"],
+    };
+    let present: Vec<&str> = keys.iter().cloned().filter(|k| r.get(*k).is_some()).collect();
+    if present.is_empty() {
+        return;
+    }
+    let k = *pick(rng, &present);
+    let old = r[k].clone();
+    for _ in 0..8 {
+        let v = match k {
+            "thr" => {
+                if old.is_array() {
+                    let d = old[1].as_i64().unwrap_or(1).max(1);
+                    json!([(old[0].as_i64().unwrap_or(1) + rng.gen_range(1..=2i64) * d).max(0), d])
+                } else {
+                    json!(old.as_u64().unwrap_or(1) + rng.gen_range(1..=2u64))
+                }
+            }
+            "I" => {
+                if fam == "cb" {
+                    json!(*pick(rng, &[500u64, 1000, 1500, 2000]))
+                } else {
+                    json!(*pick(rng, &[0u64, 500, 1000, 2000, 3000, 700]))
+                }
+            }
+            "maxq" => json!(*pick(rng, &[0u64, 100, 500, 1000])),
+            "burst" => json!(rng.gen_range(0..=3u64)),
+            "dur" => json!(rng.gen_range(1..=3u64)),
+            "retry" => json!(*pick(rng, &[300u64, 500, 1000, 2000])),
+            "minreq" => json!(rng.gen_range(0..=3u64)),
+            _ => old.clone(),
+        };
+        if v != old {
+            r[k] = v;
+            return;
+        }
+    }
+}
+
 /// C11: take a history of one enforcement family and insert reloads at random points: the same
 /// rules under regenerated ids, in another order, with an unrelated resource added / changed /
 /// removed in the same call, through load-all or load-for-resource.
@@ -553,6 +617,15 @@ pub fn with_reloads(rng: &mut impl Rng, evs: Vec<Value>, fam: &str, res: &str) -
                     r
                 })
                 .collect();
+            // "changed ones apply at once": now and then one field of one rule of the resource under
+            // test gets another value (the rule is then a different rule; the others stay unchanged)
+            if rng.gen_range(0..3) == 0 {
+                let idxs: Vec<usize> = (0..rules.len()).filter(|i| rules[*i]["res"] == res).collect();
+                if !idxs.is_empty() {
+                    let i = *pick(rng, &idxs);
+                    change_one_field(rng, &mut rules[i], fam);
+                }
+            }
             // another order
             if rules.len() > 1 && rng.gen_bool(0.5) {
                 rules.reverse();
